@@ -42,6 +42,9 @@ func buildMaskRule(p string, matchCase bool) (*maskRule, string) {
 	opts := "$domain=example.org"
 	if matchCase {
 		opts += ",match-case"
+	} else if len(p)%2 == 1 {
+		// "not match-case" written out (for half of the patterns): the same as leaving it out
+		opts += ",~match-case"
 	}
 	text := p + opts
 	r, err := rules.NewNetworkRule(text, 1)
